@@ -133,6 +133,11 @@ pub fn gen_loop(seed: u64, n: usize, family: &str) -> Vec<Scenario> {
         sc.grace_us = unit * rng.random_range(0..6);
         sc.tcp_timeout_us = sc.max_round_us;
         sc.net.hop_delay_us = *pick(&mut rng, &[100, 1_000, 3_000, unit]);
+        if sc.proto == "tcp" && rng.random_bool(0.5) {
+            // a connect timeout of a few hop delays: the sockets of probes answered by routers (ICMP) expire while
+            // the sockets of later probes are still connecting or have just connected
+            sc.tcp_timeout_us = sc.net.hop_delay_us * rng.random_range(2..14);
+        }
         sc.net.jitter_us = *pick(&mut rng, &[0, 500, 5_000, unit * 3]);
         sc.net.loss = *pick(&mut rng, &[0, 0, 5, 30]);
         sc.net.dup_pct = *pick(&mut rng, &[0, 0, 10]);
@@ -162,7 +167,10 @@ pub fn gen_noise(seed: u64, n: usize) -> Vec<Scenario> {
         // wrap-around: start close to the largest allowed initial sequence
         if rng.random_range(0..3) == 0 {
             sc.init_seq = *pick(&mut rng, &[64511, 64400, 63999]);
-            sc.max_rounds = 30;
+            // long enough to wrap and keep going: after the wrap the buffer still holds unanswered probes of the first
+            // lap under the very sequence numbers that are now being re-used
+            sc.max_rounds = 70;
+            sc.noise.never_pct = 25;
             sc.max_round_us = sc.read_timeout_us * 6;
             sc.min_round_us = sc.min_round_us.min(sc.max_round_us);
             sc.net.late_us = sc.max_round_us + sc.read_timeout_us * 2;
